@@ -53,12 +53,15 @@ const (
 	// only in the fault alphabet (in-memory runs): a Write whose k-th file write fails half-way
 	epWriteFail1 = epNOps
 	epWriteFail2 = epNOps + 1
+	// a LoadFileData whose k-th read dies half-way (the first half of the file comes back together with the error)
+	epLoadFail1 = epNOps + 2
+	epLoadFail2 = epNOps + 3
 )
 
 // epFaultAlphabet: the operations of the error-path search.
-var epFaultAlphabet = []int{epLoad, epCompute, epWrite, epWriteFail1, epWriteFail2, epAShort, epALong}
+var epFaultAlphabet = []int{epLoad, epCompute, epWrite, epWriteFail1, epWriteFail2, epLoadFail1, epLoadFail2, epAShort, epALong}
 
-var epNames = []string{"Load", "Compute", "Write", "a:=short", "a:=long", "a:=orig", "b:=deleted", "b:=restored", "Write(1st file write torn)", "Write(2nd file write torn)"}
+var epNames = []string{"Load", "Compute", "Write", "a:=short", "a:=long", "a:=orig", "b:=deleted", "b:=restored", "Write(1st file write torn)", "Write(2nd file write torn)", "Load(1st read dies half-way)", "Load(2nd read dies half-way)"}
 
 var encProtoSeq int
 
@@ -199,6 +202,7 @@ func encProtoOne(c *encProtoCase, seq []int, r *core.Rec, wrap func(*encProtoCas
 	index := filepath.Join(dir, "s"+ext)
 	var loaded map[string][]byte
 	lastLoadOK, computed := false, false
+	computedGood := false // a compute succeeded for the contents of the last SUCCESSFUL load (a later failed load does not undo that)
 	key := ""
 	for _, op := range seq {
 		r.AddTransitions(1)
@@ -212,6 +216,55 @@ func encProtoOne(c *encProtoCase, seq []int, r *core.Rec, wrap func(*encProtoCas
 		case epBRestore:
 			cur["b"] = bOrig
 			writeFile(paths[1], bOrig)
+		case epLoadFail1, epLoadFail2:
+			if mem == nil {
+				continue
+			}
+			k, failAt := 0, 1+op-epLoadFail1
+			mem.Hook = func(index int, kind, path string, data []byte) *envfs.Fault {
+				if kind == "read" {
+					k++
+					if k == failAt {
+						return &envfs.Fault{Err: envfs.ErrInjected, Partial: envfs.HalfRead, Kind: "half-read"}
+					}
+				}
+				return nil
+			}
+			var lerr error
+			pi := core.Catch(func() {
+				if e1 != nil {
+					lerr = e1.LoadFileData()
+				} else {
+					lerr = e2.LoadFileData()
+				}
+			})
+			mem.Hook = nil
+			computed = false
+			if pi != nil {
+				viol("encoder-protocol:load-panic:"+pi.Frame, "%s", pi.Value)
+				return
+			}
+			if k >= failAt && lerr == nil {
+				viol("encoder-protocol:read-fault-not-reported", "read %d of LoadFileData failed, but it returned nil", failAt)
+				return
+			}
+			if k < failAt {
+				// fewer reads than that (an input is missing): an ordinary load
+				_, bThere := cur["b"]
+				if (lerr == nil) != bThere {
+					viol("encoder-protocol:load-outcome-wrong", "LoadFileData returned %v, input b present: %v", lerr, bThere)
+					return
+				}
+			}
+			lastLoadOK = lerr == nil
+			if lastLoadOK {
+				computedGood = false
+				loaded = map[string][]byte{}
+				for k, v := range cur {
+					loaded[k] = v
+				}
+			}
+			key += fmt.Sprintf("Lf%v", lastLoadOK)
 		case epLoad:
 			var lerr error
 			pi := core.Catch(func() {
@@ -236,6 +289,7 @@ func encProtoOne(c *encProtoCase, seq []int, r *core.Rec, wrap func(*encProtoCas
 			}
 			lastLoadOK = lerr == nil
 			if lastLoadOK {
+				computedGood = false
 				loaded = map[string][]byte{}
 				for k, v := range cur {
 					loaded[k] = v
@@ -265,6 +319,9 @@ func encProtoOne(c *encProtoCase, seq []int, r *core.Rec, wrap func(*encProtoCas
 				return
 			}
 			computed = wellFormed && cerr == nil
+			if computed {
+				computedGood = true
+			}
 			key += fmt.Sprintf("C%v", cerr == nil)
 		case epWrite, epWriteFail1, epWriteFail2:
 			for old := range outputs() {
@@ -313,6 +370,12 @@ func encProtoOne(c *encProtoCase, seq []int, r *core.Rec, wrap func(*encProtoCas
 				continue
 			}
 			key += fmt.Sprintf("W%v", werr == nil)
+			if !judged && !lastLoadOK && computedGood && werr == nil {
+				// the latest load attempt failed, but an earlier load + compute on this object succeeded: a Write that then
+				// reports success has written a set, and that set has to describe what that earlier load saw
+				r.Count("encproto_judged_writes_after_failed_reload", 1)
+				judged = true
+			}
 			if !judged {
 				r.Count("encproto_unjudged_writes", 1)
 				continue
